@@ -10,7 +10,7 @@ from .. import env, refmath
 
 ID = "C05"
 LEVEL = "exploration"
-BUDGET = {"quick": 1600, "thorough": 40000}
+BUDGET = {"quick": 1600, "thorough": 80000}
 SHARDS = {"quick": 8, "thorough": 16}
 RULE = (
     "case = sampler class (MiniPCNSMC, EmceeSMC, BlackJAXSMC.log_prob, MiniPCN, Emcee) x preconditioning (none, periodic, "
